@@ -696,10 +696,105 @@ func collectMapSites(repo string) ([]mapSite, []string, error) {
 			}
 		}
 	}
+	// ---- package-level variables that some function writes, and what globals.Reset restores ----
+	msMutable = map[string]string{}
+	msDecl, msReset = nil, nil
+	for _, pp := range pkgPaths {
+		info := l.infos[pp]
+		pkg := l.pkgs[pp]
+		short := strings.TrimPrefix(pp, msModule+"/")
+		rootVar := func(e ast.Expr) *types.Var {
+			for {
+				switch x := e.(type) {
+				case *ast.ParenExpr:
+					e = x.X
+				case *ast.IndexExpr:
+					e = x.X
+				case *ast.StarExpr:
+					e = x.X
+				case *ast.SelectorExpr:
+					if v, ok := info.Uses[x.Sel].(*types.Var); ok && !v.IsField() && v.Parent() == v.Pkg().Scope() {
+						return v // pkg.Var
+					}
+					e = x.X
+				case *ast.Ident:
+					if v, ok := info.Uses[x].(*types.Var); ok && !v.IsField() && v.Pkg() != nil && v.Parent() == v.Pkg().Scope() {
+						return v
+					}
+					return nil
+				default:
+					return nil
+				}
+			}
+		}
+		for _, f := range l.files[pp] {
+			for _, d := range f.Decls {
+				switch dd := d.(type) {
+				case *ast.GenDecl:
+					if dd.Tok == token.VAR && short == "compiler/globals" {
+						for _, sp := range dd.Specs {
+							vs := sp.(*ast.ValueSpec)
+							for i, n := range vs.Names {
+								init := ""
+								if i < len(vs.Values) {
+									init = msSrc(fset, vs.Values[i])
+								}
+								msDecl = append(msDecl, [2]string{n.Name, init})
+							}
+						}
+					}
+				case *ast.FuncDecl:
+					if dd.Body == nil {
+						continue
+					}
+					fn := dd.Name.Name
+					if dd.Recv != nil && len(dd.Recv.List) == 1 {
+						fn = strings.TrimPrefix(msSrc(fset, dd.Recv.List[0].Type), "*") + "." + fn
+					}
+					isReset := short == "compiler/globals" && fn == "Reset"
+					ast.Inspect(dd.Body, func(n ast.Node) bool {
+						var lhs []ast.Expr
+						switch x := n.(type) {
+						case *ast.AssignStmt:
+							if x.Tok != token.DEFINE {
+								lhs = x.Lhs
+							}
+							if isReset && len(x.Lhs) == len(x.Rhs) {
+								for i := range x.Lhs {
+									if id, ok := x.Lhs[i].(*ast.Ident); ok {
+										msReset = append(msReset, [2]string{id.Name, msSrc(fset, x.Rhs[i])})
+									}
+								}
+							}
+						case *ast.IncDecStmt:
+							lhs = []ast.Expr{x.X}
+						}
+						for _, e := range lhs {
+							if v := rootVar(e); v != nil && strings.HasPrefix(v.Pkg().Path(), msModule+"/compiler") {
+								key := strings.TrimPrefix(v.Pkg().Path(), msModule+"/") + "." + v.Name()
+								where := short + ":" + fn
+								if !strings.Contains(msMutable[key], where) {
+									if msMutable[key] != "" {
+										msMutable[key] += ", "
+									}
+									msMutable[key] += where
+								}
+							}
+						}
+						return true
+					})
+				}
+			}
+		}
+		_ = pkg
+	}
 	return sites, l.errs, nil
 }
 
 var msLessSrc map[string]string
+var msMutable map[string]string
+var msDecl, msReset [][2]string
+
 
 func emitMapSites(repo, out string) error {
 	sites, errs, err := collectMapSites(repo)
@@ -741,6 +836,35 @@ func emitMapSites(repo, out string) error {
 		fmt.Fprintf(&b, "  (%s, %s)%s\n", coqString(k), coqString(msLessSrc[k]), sep)
 	}
 	b.WriteString("].\n\n")
+	b.WriteString("(** package-level variables of compiler/** that some function assigns (name, writers) *)\n")
+	b.WriteString("Definition mutable_globals : list (string * string) := [\n")
+	mk := make([]string, 0, len(msMutable))
+	for k := range msMutable {
+		mk = append(mk, k)
+	}
+	sort.Strings(mk)
+	for i, k := range mk {
+		sep := ";"
+		if i == len(mk)-1 {
+			sep = ""
+		}
+		fmt.Fprintf(&b, "  (%s, %s)%s\n", coqString(k), coqString(msMutable[k]), sep)
+	}
+	b.WriteString("].\n\n")
+	emitPairs := func(name string, l [][2]string) {
+		fmt.Fprintf(&b, "Definition %s : list (string * string) := [\n", name)
+		for i, p := range l {
+			sep := ";"
+			if i == len(l)-1 {
+				sep = ""
+			}
+			fmt.Fprintf(&b, "  (%s, %s)%s\n", coqString(p[0]), coqString(p[1]), sep)
+		}
+		b.WriteString("].\n\n")
+	}
+	b.WriteString("(** compiler/globals: declared variables with their initialisers, and the assignments of Reset() *)\n")
+	emitPairs("globals_decl", msDecl)
+	emitPairs("globals_reset", msReset)
 	b.WriteString("(* classification notes\n")
 	for _, s := range sites {
 		fmt.Fprintf(&b, "   %s:%d %s: %s -- %s\n", s.File, s.Line, s.Func, s.Class, strings.ReplaceAll(strings.ReplaceAll(s.Detail, "*)", "* )"), "(*", "( *"))
